@@ -282,6 +282,9 @@ static void wakeup_event_preempt(void *vp, void *arg)
     }
 }
 
+/* For the sweep in cmi_process_cancel_awaiteds, which must know the library's own wakeup calls */
+cmb_event_func *const cmi_resource_preempt_action = wakeup_event_preempt;
+
 int64_t cmb_resource_preempt(struct cmb_resource *rp)
 {
     cmb_assert_release(rp != NULL);
